@@ -332,3 +332,25 @@ Lemma reprinted_text_changes_value :
             run false w_cp [] (map (relit_tok w_cp) (print t)) =
               Ok (Some (XV (VAmt (mkAmt 5 0 true None)))).
 Proof. eexists. split; [vm_compute; reflexivity|]. split; vm_compute; reflexivity. Qed.
+
+(* `f(a) = (b -> a + b); (f(1))(2)`: the closure loses a *)
+Definition w_f : str := [102]. Definition w_a : str := [97]. Definition w_b : str := [98].
+Definition w_g : str := [103]. Definition w_y : str := [121].
+Definition w_escape : list tok :=
+  [TIdent w_f; TLParen; TIdent w_a; TRParen; TAssign; TLParen; TIdent w_b; TArrow; TIdent w_a; TPlus; TIdent w_b; TRParen;
+   TSemi; TLParen; TIdent w_f; TLParen; TVal (w_num 1); TRParen; TRParen; TLParen; TVal (w_num 2); TRParen].
+
+Lemma escaping_closure_fails : run false w_cp [] w_escape = Err EOther.
+Proof. vm_compute. reflexivity. Qed.
+
+(* `f(a) = (y = a * 2; g(a) = y; g(5)); f(1)`: y is evaluated with g's a *)
+Definition w_dyn : list tok :=
+  [TIdent w_f; TLParen; TIdent w_a; TRParen; TAssign; TLParen;
+     TIdent w_y; TAssign; TIdent w_a; TStar; TVal (w_num 2); TSemi;
+     TIdent w_g; TLParen; TIdent w_a; TRParen; TAssign; TIdent w_y; TSemi;
+     TIdent w_g; TLParen; TVal (w_num 5); TRParen; TRParen; TSemi;
+   TIdent w_f; TLParen; TVal (w_num 1); TRParen].
+
+Lemma by_name_variable_sees_callee_parameter :
+  run false w_cp [] w_dyn = Ok (Some (XV (VAmt (mkAmt 10 0 false None)))).
+Proof. vm_compute. reflexivity. Qed.
